@@ -402,8 +402,12 @@ func (c *Ctx) enterBlock(st *State, b *ssa.BasicBlock) bool {
 				break
 			}
 			c.ghostAt(st, fr, "loop-exit:"+al.ID, al.L)
-			if prev == al.L.Header {
-				c.ghostAt(st, fr, "loop-done:"+al.ID, al.L) // left because the loop condition became false
+			// "done": control reaches the statement after the loop (condition false - also a compound condition,
+			// whose later tests sit in further blocks - or break), as opposed to return / continue of an outer loop
+			for _, sx := range al.L.Header.Succs {
+				if !al.L.Blocks[sx] && sx == b {
+					c.ghostAt(st, fr, "loop-done:"+al.ID, al.L)
+				}
 			}
 		}
 		for i, ph := range phis {
@@ -470,9 +474,17 @@ func (c *Ctx) enterBlock(st *State, b *ssa.BasicBlock) bool {
 	if st.Disc == nil {
 		c.checkInvariant(st, fr, loop, ls, "entry", nil)
 	}
+	// earlier iterations may have allocated: the allocation mark at the head of an arbitrary iteration is some
+	// value at or above the mark at loop entry (fresh references of this iteration and after the loop must not
+	// coincide with references allocated by earlier iterations)
+	{
+		na := Fresh("alloc.loop"+loop.ID, IntSort)
+		st.assume(Cmp(">=", na, st.Alloc, true))
+		st.Alloc = na
+	}
 	// discover the write set of the loop body, then havoc
 	ws := c.discoverWrites(st, fr, loop, phis)
-	al := &ActiveLoop{L: loop, Header: b, Frame: len(st.Frames), Entry: st.snapshot(), Spec: ls, ID: loop.ID, Written: ws, LogLen: len(st.CallLog)}
+	al := &ActiveLoop{L: loop, Header: b, Frame: len(st.Frames), Entry: st.snapshot(), Spec: ls, ID: loop.ID, Written: ws, LogLen: len(st.CallLog), AllocMark: st.Alloc, ObjMark: c.nobj}
 	c.havocPhis(st, fr, phis)
 	c.havocWrites(st, ws)
 	st.Loops = append(st.Loops, al)
@@ -869,6 +881,11 @@ func (c *Ctx) materialise(st *State, p PtrV) *Object {
 	}
 	if p.Sym.Op == "ite" {
 		unsupported("dereference of a conditional pointer %s", p.Sym)
+	}
+	if isNum(p.Sym) && p.Sym.Val.Sign() < 0 {
+		if o := c.objByID[int(-p.Sym.Val.Int64())]; o != nil {
+			return o
+		}
 	}
 	o := c.newObject("obj."+p.Sym.String(), p.Typ)
 	st.Mem[o] = c.symbolic(st, p.Typ, "m."+strings.TrimSuffix(p.Sym.Name, ".ptr"))
@@ -1479,7 +1496,7 @@ func (c *Ctx) sliceOp(st *State, x *ssa.Slice) Value {
 			} else {
 				c.safety(st, x, "slice-bounds", And(Cmp("<=", z, lo, true), Cmp("<=", lo, hi, true), Cmp("<=", hi, b.Cap, true)))
 			}
-			return SliceV{Elem: b.Elem, Heap: true, Ref: b.Ref, Off: Arith("+", b.Off, lo), Len: Arith("-", hi, lo), Cap: Arith("-", cp, lo)}
+			return SliceV{Elem: b.Elem, Heap: true, Ref: b.Ref, Off: Arith("+", b.Off, lo), Len: Arith("-", hi, lo), Cap: Arith("-", cp, lo), Origin: b.Origin}
 		}
 		if hi == nil {
 			hi = c.idx(int64(b.CLen))
@@ -1495,7 +1512,7 @@ func (c *Ctx) sliceOp(st *State, x *ssa.Slice) Value {
 				unsupported("symbolic bounds on concrete slice")
 			}
 			hb := c.toHeapSlice(st, b, b.Elem)
-			return SliceV{Elem: b.Elem, Heap: true, Ref: hb.Ref, Off: Arith("+", hb.Off, lo), Len: Arith("-", hi, lo), Cap: Arith("-", hb.Cap, lo)}
+			return SliceV{Elem: b.Elem, Heap: true, Ref: hb.Ref, Off: Arith("+", hb.Off, lo), Len: Arith("-", hi, lo), Cap: Arith("-", hb.Cap, lo), Origin: hb.Origin}
 		}
 		l, h, m := c.constIdx(lo), c.constIdx(hi), c.constIdx(cp)
 		if l < 0 || l > h || h > m || m > b.CCap {
